@@ -7,8 +7,10 @@
    The theorems C04_getargs_* are about whole runs over tasks that take values from other tasks
    (getargs / result_dep; Model/Getargs.v).
    The last part (C04_second_run_noop, C04_getargs_second_run_noop; Proofs/RerunP.v, RerunGP.v) is about the WHOLE repeated run:
-   every decision of the 2nd, 3rd, ... run, and the DB they leave. *)
-From DoitV Require Import Base Status History Getargs StatusP HistoryP GetargsP RerunP RerunGP.
+   every decision of the 2nd, 3rd, ... run, and the DB they leave.
+   The theorems C04_calcdep_* (end of the file; Model/CalcDep.v, Proofs/CalcDepP.v) are about whole runs over tasks that get
+   dependencies from the values of other tasks (calc_dep), read when the task is dispatched. *)
+From DoitV Require Import Base Status History Getargs StatusP HistoryP GetargsP RerunP RerunGP CalcDep CalcDepP.
 Open Scope Z_scope.
 
 (* converse of C03_uptodate_sound: in the state reached by ANY history, if no uptodate item is
@@ -439,4 +441,130 @@ Example C04_getargs_lazy_chain :
   let aC := run_after md5 size_of current (ch_l ++ repeat (GRun sel []) 2) sel [] in
   ra_fin aC = [(1%N, 2); (2%N, 0); (0%N, 2)] /\
   map (fun t => g_status (check md5 current (ra_s aC) t)) [1; 0]%N = [UpToDate; UpToDate].
+Proof. vm_compute. repeat split. Qed.
+
+
+(* ================= calc_dep: dependencies taken from the values of other tasks (Model/CalcDep.v) =================
+   A run-level history l (file operations, definitions with calc_dep / task_dep, forget / ignore, whole runs `doit run --continue sel`);
+   [chist_ok]: FS-fresh; [cops_plain]: no result_dep items (that family is Getargs.v).  a = the run `doit run sel` makes after l. *)
+
+(* what a task that was executed (0) or skipped as up-to-date (2) hands over to the tasks that name it in calc_dep -- its in-memory
+   `task.values` -- is what its DB record holds at the end of the run: the dicts its actions returned when it ran, the saved values
+   when it was skipped.  For every selection: whether the provider was dispatched before the consumer's node existed or was waited for. *)
+Theorem C04_calcdep_values_handed_over : forall (md5 : N -> N) (size_of : N -> Z) (l : list cop) (sel failing : list name) (t : name),
+  chist_ok md5 size_of current l = true -> cops_plain l = true ->
+  let a := crun_after md5 size_of current l sel failing in
+  (cfin_of (ca_fin a) t = Some 0 \/ cfin_of (ca_fin a) t = Some 2) -> ca_vals a t = get_values (s_db (ca_s a)) t.
+Proof. intros md5 size_of. exact (calc_hist_handed_over md5 size_of current eq_refl eq_refl). Qed.
+Print Assumptions C04_calcdep_values_handed_over.
+
+(* the dependency set a task saved when it was executed is DECLARED + CALCULATED: the definition it was looked at with is the declared one
+   merged with the values its calc_dep providers' records hold (file_dep added, uptodate extended), `deps:` is exactly its file_dep, the
+   checker is the configured one, and every provider was executed or up-to-date in that run *)
+Theorem C04_calcdep_saved_dep_set : forall (md5 : N -> N) (size_of : N -> Z) (l : list cop) (sel failing : list name) (t : name),
+  chist_ok md5 size_of current l = true -> cops_plain l = true ->
+  let g := crun md5 size_of current l in
+  let a := crun_after md5 size_of current l sel failing in
+  ca_cyc a = false -> ca_fuel a = false -> cfin_of (ca_fin a) t = Some 0 ->
+  let db1 := s_db (ca_s a) in
+  let df := merged_with (get_values db1) (cs_defs g t) in
+  s_defs (ca_s a) t = df /\ r_deps (getrec db1 t) = Some (file_dep df) /\ r_checker (getrec db1 t) = Some (s_ck (cs_s g)) /\
+  (forall x, In x (file_dep df) <->
+             In x (file_dep (cd_def (cs_defs g t))) \/
+             exists p, In p (cd_calc (cs_defs g t)) /\ In x (calc_files (get_values db1 p))) /\
+  (forall p, In p (cd_calc (cs_defs g t)) -> cfin_of (ca_fin a) p = Some 0 \/ cfin_of (ca_fin a) p = Some 2).
+Proof. intros md5 size_of. exact (calc_hist_saved_dep_set md5 size_of current eq_refl eq_refl). Qed.
+Print Assumptions C04_calcdep_saved_dep_set.
+
+(* the second look at a task the run executed or skipped, with the definition recomputed from the saved values of its providers (what the
+   next run does): the recomputed definition IS the one in force (set_def changes nothing), and the task would be executed only if it can
+   never be up-to-date: an uptodate item (declared or calculated) that is not true, or no file_dep and no evaluated item at all *)
+Theorem C04_calcdep_second_look : forall (md5 : N -> N) (size_of : N -> Z) (l : list cop) (sel failing : list name) (t : name),
+  chist_ok md5 size_of current l = true -> cops_plain l = true ->
+  let g := crun md5 size_of current l in
+  let a := crun_after md5 size_of current l sel failing in
+  ca_cyc a = false -> ca_fuel a = false ->
+  (cfin_of (ca_fin a) t = Some 0 \/ cfin_of (ca_fin a) t = Some 2) ->
+  status_is_ignore (s_db (ca_s a)) t = false ->
+  (forall x, In x (targets (cd_def (cs_defs g t))) -> exists_ (s_fs (cs_s g)) x = true) ->
+  let s2 := set_def md5 size_of current (ca_s a) t (merged_with (get_values (s_db (ca_s a))) (cs_defs g t)) in
+  s2 = ca_s a /\
+  (executes md5 current s2 t false = false <-> items_ok (s_db s2) t (s_defs s2 t) /\ some_dep (s_db s2) t (s_defs s2 t)).
+Proof. intros md5 size_of. exact (calc_hist_second_look md5 size_of current eq_refl eq_refl). Qed.
+Print Assumptions C04_calcdep_second_look.
+
+(* the WHOLE run repeated immediately (k+1 times) after a clean, fully successful one (every task executed or up-to-date, none ignored,
+   targets exist): it reaches exactly the same tasks without cycle / fuel problem; a task it executes was executed by the first run and
+   `executes` says so in the state s1 the first run left (C04_calcdep_second_look: it can never be up-to-date); every other task is skipped
+   as up-to-date; the DB it leaves is equivalent to the one of s1 (same observation) *)
+Theorem C04_calcdep_second_run_noop : forall (md5 : N -> N) (size_of : N -> Z) (l : list cop) (sel : list name),
+  chist_ok md5 size_of current l = true -> cops_plain l = true ->
+  let g := crun md5 size_of current l in
+  let a1 := crun_after md5 size_of current l sel [] in
+  let s1 := ca_s a1 in
+  ca_cyc a1 = false -> ca_fuel a1 = false ->
+  (forall t c, cfin_of (ca_fin a1) t = Some c -> c = 0 \/ c = 2) ->
+  (forall t, cfin_of (ca_fin a1) t <> None -> status_is_ignore (s_db s1) t = false) ->
+  (forall t x, cfin_of (ca_fin a1) t <> None -> In x (targets (cd_def (cs_defs g t))) -> exists_ (s_fs (cs_s g)) x = true) ->
+  forall k,
+  let ak := crun_after md5 size_of current (l ++ repeat (CRun sel []) (S k)) sel [] in
+  (forall t c, cfin_of (ca_fin ak) t = Some c ->
+     (c = 0 /\ cfin_of (ca_fin a1) t = Some 0 /\ executes md5 current s1 t false = true) \/
+     (c = 2 /\ cfin_of (ca_fin a1) t <> None /\ executes md5 current s1 t false = false)) /\
+  (forall t, cfin_of (ca_fin ak) t <> None <-> cfin_of (ca_fin a1) t <> None) /\
+  ca_cyc ak = false /\ ca_fuel ak = false /\
+  db_equiv (s_db (ca_s ak)) (s_db s1) /\
+  (forall tasks files, db_z tasks files (s_db (ca_s ak)) = db_z tasks files (s_db s1)).
+Proof. intros md5 size_of. exact (calc_hist_rerun_noop md5 size_of current eq_refl eq_refl). Qed.
+Print Assumptions C04_calcdep_second_run_noop.
+
+(* non-vacuity and the point of the family.  T0 (consumer): file_dep 0, calc_dep T1.  T1 (provider): its own file_dep 1 (it can be
+   up-to-date), returns file_dep [2] (bitmask 4 under the key of 'file_dep').  For BOTH dispatch orders -- provider first ([1;0]: its node
+   is done before the consumer's exists) and consumer first ([0;1]) -- the first run executes both and T0 saves the dep set {0, 2}; the
+   second and third runs skip both; after an edit of the CALCULATED file 2 the consumer is executed again, the provider is not. *)
+Definition e_ccons : cdef := {| cd_def := {| file_dep := [0%N]; targets := []; uptodate := []; act_values := []; act_result := None |};
+                                cd_task_dep := []; cd_calc := [1%N] |}.
+Definition e_cprov : cdef := {| cd_def := {| file_dep := [1%N]; targets := []; uptodate := []; act_values := [(k_cfd, Some 4%N)]; act_result := None |};
+                                cd_task_dep := []; cd_calc := [] |}.
+Definition e_cl : list cop := [CP (Write 0 0); CP (Write 1 1); CP (Write 2 2); CSetDef 0 e_ccons; CSetDef 1 e_cprov]%N.
+
+Example C04_calcdep_nonvacuous :
+  let md5 := fun c : N => c in let size_of := fun _ : N => 4 in
+  forall sel, sel = [1; 0]%N \/ sel = [0; 1]%N ->
+  let a1 := crun_after md5 size_of current e_cl sel [] in
+  chist_ok md5 size_of current e_cl = true /\ cops_plain e_cl = true /\ ca_cyc a1 = false /\ ca_fuel a1 = false /\
+  (forall t c, cfin_of (ca_fin a1) t = Some c -> c = 0 \/ c = 2) /\
+  (forall t, cfin_of (ca_fin a1) t <> None -> status_is_ignore (s_db (ca_s a1)) t = false) /\
+  ca_fin a1 = [(1%N, 0); (0%N, 0)] /\
+  r_deps (getrec (s_db (ca_s a1)) 0%N) = Some [0; 2]%N /\
+  ca_fin (crun_after md5 size_of current (e_cl ++ repeat (CRun sel []) 1) sel []) = [(1%N, 2); (0%N, 2)] /\
+  ca_fin (crun_after md5 size_of current (e_cl ++ repeat (CRun sel []) 2) sel []) = [(1%N, 2); (0%N, 2)] /\
+  ca_fin (crun_after md5 size_of current (e_cl ++ repeat (CRun sel []) 2 ++ [CP (Write 2%N 3%N)]) sel []) = [(1%N, 2); (0%N, 0)].
+Proof.
+  intros md5 size_of sel Hsel a1.
+  assert (E : ca_fin a1 = [(1%N, 0); (0%N, 0)]) by (destruct Hsel; subst sel; vm_compute; reflexivity).
+  assert (I0 : status_is_ignore (s_db (ca_s a1)) 0%N = false) by (destruct Hsel; subst sel; vm_compute; reflexivity).
+  assert (I1 : status_is_ignore (s_db (ca_s a1)) 1%N = false) by (destruct Hsel; subst sel; vm_compute; reflexivity).
+  split; [vm_compute; reflexivity|]. split; [vm_compute; reflexivity|].
+  split; [destruct Hsel; subst sel; vm_compute; reflexivity|]. split; [destruct Hsel; subst sel; vm_compute; reflexivity|].
+  split. { intros t c H. rewrite E in H. cbn [cfin_of] in H.
+           repeat match type of H with context [N.eqb ?a ?b] => destruct (N.eqb a b) end; try discriminate; inversion H; auto. }
+  split. { intros t H. rewrite E in H. cbn [cfin_of] in H.
+           destruct (N.eqb_spec 1 t) as [Et|_]; [subst t; exact I1|].
+           destruct (N.eqb_spec 0 t) as [Et|_]; [subst t; exact I0|]. congruence. }
+  split; [exact E|].
+  destruct Hsel; subst sel; vm_compute; repeat split; reflexivity.
+Qed.
+
+(* what the theorems exclude.  If an up-to-date provider handed over NOTHING when it is dispatched before its consumer (seeded change
+   C04d: `task.values` loaded only for a provider some node already waits for), C04_calcdep_values_handed_over would fail; the model run
+   below shows the consequence the harness looks for, computed by replacing what T1 hands over by [] in the merge: the consumer's dep
+   set would be {0} instead of {0, 2} -- different from the saved one, so get_status answers run. *)
+Example C04_calcdep_lost_values_would_rerun :
+  let md5 := fun c : N => c in let size_of := fun _ : N => 4 in
+  let a1 := crun_after md5 size_of current e_cl [1; 0]%N [] in
+  let s1 := ca_s a1 in
+  file_dep (merged_with (ca_vals a1) e_ccons) = [0; 2]%N /\ file_dep (merged_with (fun _ => []) e_ccons) = [0%N] /\
+  g_status (check md5 current (set_def md5 size_of current s1 0%N (merged_with (ca_vals a1) e_ccons)) 0%N) = UpToDate /\
+  g_status (check md5 current (set_def md5 size_of current s1 0%N (merged_with (fun _ => []) e_ccons)) 0%N) = Run.
 Proof. vm_compute. repeat split. Qed.
